@@ -166,9 +166,7 @@ structure Sess where
   live : Bool := false
 
 def mkEnv (T : Tables) (seed : Nat) : Env :=
-  { eval := fun ht hole board => match fromGame T ht hole board with
-      | .ok h => .ok (score ht h)
-      | .error e => .error e
+  { eval := tableEval T
     shuffle := shuffleWith seed
     openEntry := openEntryOf T }
 
